@@ -172,6 +172,21 @@ pub fn negative_table() -> Vec<Negative> {
             forms.push(("write-to-call-result", format!("{} produce() {{ return {}; }}\n", t, v1), format!("{} m = {};", t, v1), "produce()".into(), "m".into()));
             forms.push(("write-to-const-struct-member", format!("struct Box {{ {} v; }};\n", t), format!("const Box cb = {{ {} }}; Box mb = {{ {} }};", v1, v1), "cb.v".into(), "mb.v".into()));
             forms.push(("write-to-const-array-element", String::new(), format!("const {} ca[2] = {{ {}, {} }}; {} ma[2] = {{ {}, {} }};", t, v1, v1, t, v1, v1), "ca[1]".into(), "ma[1]".into()));
+            forms.push((
+                "write-to-const-struct-array-member-element",
+                format!("struct Rows {{ {} r[2]; }};\n", t),
+                format!("const Rows cr = {{ {{ {}, {} }} }}; Rows mr = {{ {{ {}, {} }} }};", v1, v1, v1, v1),
+                "cr.r[1]".into(),
+                "mr.r[1]".into(),
+            ));
+            forms.push((
+                "write-to-member-of-const-struct-array-element",
+                format!("struct Cell {{ {} v; }};\n", t),
+                format!("const Cell cc[2] = {{ {{ {} }}, {{ {} }} }}; Cell mc[2] = {{ {{ {} }}, {{ {} }} }};", v1, v1, v1, v1),
+                "cc[1].v".into(),
+                "mc[1].v".into(),
+            ));
+            forms.push(("write-to-cbuffer-member", format!("cbuffer Constants {{ {} cbm; }}\nstatic {} sgm = {};\n", t, t, v1), String::new(), "cbm".into(), "sgm".into()));
             if w >= 2 {
                 forms.push(("write-to-repeated-swizzle", String::new(), format!("{} m = {};", t, v1), "m.xx".into(), "m.xy".into()));
             }
@@ -221,6 +236,38 @@ pub fn negative_table() -> Vec<Negative> {
                         class: class_full,
                         bad: make(bad_t),
                         twin: make(good_t),
+                    });
+                }
+            }
+        }
+    }
+    // const matrices, with and without an explicit packing order, written through rows, elements and matrix swizzles
+    for (mt, rowt, scalar, n) in [("float2x2", "float2", "float", 2), ("float3x3", "float3", "float", 3), ("int2x2", "int2", "int", 2), ("half4x4", "half4", "half", 4), ("float2x3", "float3", "float", 2)] {
+        for order in ["", "row_major ", "column_major "] {
+            let targets: [(&str, String, String, &str); 4] = [
+                ("row", "cm[1]".into(), "mm[1]".into(), rowt),
+                ("element", "cm[1][0]".into(), "mm[1][0]".into(), scalar),
+                ("row-component", "cm[0].y".into(), "mm[0].y".into(), scalar),
+                ("matrix-swizzle", "cm._m01".into(), "mm._m01".into(), scalar),
+            ];
+            let _ = n;
+            for (what, bad_t, good_t, vt) in targets {
+                for (opname, op) in [("assign", "TGT = v;"), ("add-assign", "TGT += v;"), ("pre-increment", "++TGT;"), ("out-argument", "sink_out(TGT);"), ("inout-argument", "sink_inout(TGT);")] {
+                    let make = |target: &str| -> String {
+                        format!(
+                            "void sink_out(out {vt} o) {{ o = ({vt})1; }}\nvoid sink_inout(inout {vt} o) {{ o += ({vt})1; }}\nvoid test()\n{{\n    const {order}{mt} cm = ({mt})1;\n    {order}{mt} mm = ({mt})1;\n    {vt} v = ({vt})2;\n    {}\n}}\n",
+                            op.replace("TGT", target),
+                            vt = vt,
+                            order = order,
+                            mt = mt
+                        )
+                    };
+                    let family = if order.is_empty() { "write-to-const-matrix" } else { "write-to-const-matrix-with-packing-order" };
+                    let family = if opname.ends_with("argument") { family.replace("write-to", "pass") } else { family.to_string() };
+                    out.push(Negative {
+                        class: leak(format!("{}:{}:{}:{}{}", family, what, opname, order.trim(), mt)),
+                        bad: make(&bad_t),
+                        twin: make(&good_t),
                     });
                 }
             }
